@@ -174,14 +174,33 @@ def correspondence(ctx):
     rng = ctx.rng
     drv = common.Driver("drv_c04")
     n_tri = 20000 if ctx.thorough else 300
-    model_variants = 2 if ctx.thorough else 4     # refusal variants per triangle also sent to the model
+    model_variants = 1 if ctx.thorough else 4     # refusal variants per triangle also sent to the model
     reqs, post = [], []
 
     def send(op, cells_wire, impl_dump, what, expect_err=None):
         reqs.append({"op": op, "cells": cells_wire, "impl": impl_dump.get("ok")})
         post.append((op, cells_wire, impl_dump, what, expect_err))
 
+    def flush():
+        """one driver invocation for the pending requests (bounded memory), then compare"""
+        outs = drv.run(reqs)
+        for (op, cw, d, what, expect_err), out in zip(post, outs):
+            model, spec = out["model"], out["spec"]
+            case = {"op": op, "cells": cw}
+            if spec is not None and not all(spec.values()):
+                ctx.fail(f"{what}: Spec clause false on the implementation's output {spec}", case, {"impl": d})
+                continue
+            if "err" in d or "err" in model:
+                if model.get("err") != d.get("err"):
+                    ctx.disagree(what + " (outcome)", case, model, d)
+            elif canon(model["ok"]) != canon(d["ok"]):
+                ctx.disagree(what, case, model, d)
+        reqs.clear()
+        post.clear()
+
     for ti in range(n_tri):
+        if ti % 400 == 399:
+            flush()
         cells, info = rand_cumulative(rng)
         st, t = call(Triangle, cells)
         if st != "ok":
@@ -231,8 +250,9 @@ def correspondence(ctx):
         r_id1 = call(lambda: inc.to_incremental())
         r_id2 = call(lambda: t.to_cumulative())
         d_id1, d_id2 = dump(r_id1), dump(r_id2)
-        send("toInc", iw, d_id1, "to_incremental on an incremental triangle")
-        send("toCum", tw, d_id2, "to_cumulative on a cumulative triangle")
+        if not ctx.thorough or ti % 8 == 0:
+            send("toInc", iw, d_id1, "to_incremental on an incremental triangle")
+            send("toCum", tw, d_id2, "to_cumulative on a cumulative triangle")
         ctx.case(digest=None)
         if d_id1.get("ok") != iw:
             ctx.fail("to_incremental is not the identity on an incremental triangle", {"cells": iw}, d_id1)
@@ -260,7 +280,7 @@ def correspondence(ctx):
                 send("toCum", vw, d, f"to_cumulative on a broken chain ({tag})", expect_err="TriangleError")
 
         # 6. refusals: rows with inconsistent fields
-        for tag, vcells in field_variants(rng, list(t.cells), False):
+        for fi, (tag, vcells) in enumerate(field_variants(rng, list(t.cells), False)):
             st, vt = call(Triangle, vcells)
             if st != "ok":
                 continue
@@ -271,8 +291,9 @@ def correspondence(ctx):
             if d.get("err") != "TriangleError":
                 ctx.fail(f"cumulative row with inconsistent fields ({tag}) is not refused with TriangleError",
                          {"cells": vw}, d)
-            send("toInc", vw, d, f"to_incremental on inconsistent fields ({tag})", expect_err="TriangleError")
-        for tag, vcells in field_variants(rng, list(inc.cells), True):
+            if not ctx.thorough or fi == 0:
+                send("toInc", vw, d, f"to_incremental on inconsistent fields ({tag})", expect_err="TriangleError")
+        for fi, (tag, vcells) in enumerate(field_variants(rng, list(inc.cells), True)):
             st, vt = call(Triangle, vcells)
             if st != "ok":
                 continue
@@ -283,10 +304,13 @@ def correspondence(ctx):
             if d.get("err") != "TriangleError":
                 ctx.fail(f"incremental row with inconsistent fields ({tag}) is not refused with TriangleError",
                          {"cells": vw}, d)
-            send("toCum", vw, d, f"to_cumulative on inconsistent fields ({tag})", expect_err="TriangleError")
+            if not ctx.thorough or fi == 0:
+                send("toCum", vw, d, f"to_cumulative on inconsistent fields ({tag})", expect_err="TriangleError")
 
     # 7. a stream of directly generated complete incremental triangles (not obtained by conversion)
-    for _ in range(n_tri // 6):
+    for di in range(n_tri // 6):
+        if di % 1000 == 999:
+            flush()
         cells = gen.rand_cells(rng, kind="I", vkind=rng.choice(VKINDS),
                                fields=rng.choice([["paid_loss"], ["paid_loss", "earned_premium"],
                                                   ["reported_loss", "earned_premium", "open_claims"]]))
@@ -313,18 +337,7 @@ def correspondence(ctx):
     send("toInc", [], dump(call(lambda: e.to_incremental())), "to_incremental(empty)")
     send("toCum", [], dump(call(lambda: e.to_cumulative())), "to_cumulative(empty)")
 
-    outs = drv.run(reqs)
-    for (op, cw, d, what, expect_err), out in zip(post, outs):
-        model, spec = out["model"], out["spec"]
-        case = {"op": op, "cells": cw}
-        if spec is not None and not all(spec.values()):
-            ctx.fail(f"{what}: Spec clause false on the implementation's output {spec}", case, {"impl": d})
-            continue
-        if "err" in d or "err" in model:
-            if model.get("err") != d.get("err"):
-                ctx.disagree(what + " (outcome)", case, model, d)
-        elif canon(model["ok"]) != canon(d["ok"]):
-            ctx.disagree(what, case, model, d)
+    flush()
 
 
 if __name__ == "__main__":
